@@ -287,6 +287,8 @@ func (g *gen) writeExprUnaryOp(b *buffer, n *a.Expr, depth uint32) error {
 
 func (g *gen) writeExprBinaryOp(b *buffer, n *a.Expr, depth uint32) error {
 	opName, lhsCast, overallCast := "", false, n.MType().IsSmallInteger()
+	// lhsWiden means to convert the LHS to uint32_t before applying the op.
+	lhsWiden := false
 
 	op := n.Operator()
 	switch op {
@@ -301,12 +303,24 @@ func (g *gen) writeExprBinaryOp(b *buffer, n *a.Expr, depth uint32) error {
 		}
 		b.printf("wuffs_base__u%d__sat_%s", uBits, uOp)
 		opName = ", "
+		// The "(" and ")" written below enclose the function call's arguments,
+		// not a sub-expression, so there is nothing to cast (and the function
+		// already returns the uN type).
+		overallCast = false
 
 	case t.IDXBinaryAs:
 		return g.writeExprAs(b, n.LHS().AsExpr(), n.RHS().AsTypeExpr(), depth)
 
 	case t.IDXBinaryTildeModPlus, t.IDXBinaryTildeModMinus, t.IDXBinaryTildeModStar:
 		overallCast = true
+		// C's integer promotions convert both uint16_t operands to (signed)
+		// int, and e.g. 0xFFFF * 0xFFFF overflows an int, which is undefined
+		// behavior. Multiply as uint32_t instead. This isn't necessary if
+		// either operand is a constant, as that's written with a "u" suffix.
+		if (op == t.IDXBinaryTildeModStar) && (n.MType().QID() == t.QID{t.IDBase, t.IDU16}) &&
+			(n.LHS().AsExpr().ConstValue() == nil) && (n.RHS().AsExpr().ConstValue() == nil) {
+			lhsWiden = true
+		}
 
 	case t.IDXBinaryTildeModShiftL:
 		overallCast = true
@@ -340,11 +354,13 @@ func (g *gen) writeExprBinaryOp(b *buffer, n *a.Expr, depth uint32) error {
 			return err
 		}
 		b.writes(")(")
+	} else if lhsWiden {
+		b.writes("((uint32_t)(")
 	}
 	if err := g.writeExprRepr(b, n.LHS().AsExpr(), depth); err != nil {
 		return err
 	}
-	if lhsCast {
+	if lhsCast || lhsWiden {
 		b.writes("))")
 	}
 
@@ -476,13 +492,25 @@ func (g *gen) writeExprAssociativeOp(b *buffer, n *a.Expr, depth uint32) error {
 		opName = strings.TrimRight(opName, " ") + "\n"
 	}
 
+	// For uint8_t and uint16_t operands, C's integer promotions would multiply
+	// as (signed) int. An intermediate product can overflow an int (undefined
+	// behavior) even if the overall product is in range (when a later operand
+	// is zero). Converting the first operand makes every multiplication a
+	// uint32_t one.
+	widen := (op == t.IDXAssociativeStar) && n.MType().IsSmallInteger()
+
 	b.writeb('(')
 	for i, o := range n.Args() {
 		if i != 0 {
 			b.writes(opName)
+		} else if widen {
+			b.writes("((uint32_t)(")
 		}
 		if err := g.writeExpr(b, o.AsExpr(), false, depth); err != nil {
 			return err
+		}
+		if (i == 0) && widen {
+			b.writes("))")
 		}
 	}
 	b.writeb(')')
